@@ -18,7 +18,8 @@
         ("Pictures/" + uuid4 + extension, or the caller's name) is an input of the model.
   * `addThumbnail`                   → field `thumbnail` (bytes + the `_thumbnail_mediatype` attribute `load` sets)
   * `addObject`                      → `attachIn` / `step` (history model for C16): names in use =
-        `c.folder[len(self.folder)+1:]` of the children; default name = first free "Object n" from
+        `f[len(self.folder)+1:]` for the folder `f` of every object below the holder, at any depth
+        (`_foldersBelow` → `usedBelow`); default name = first free "Object n" from
         n = len(childobjects)+1; an explicit name loses its leading "/"s; a name in use raises ValueError
         (nothing attached), and so does a document that is already attached or is the parent itself (d51bb64);
         the child is appended and `_setFolder(parent.folder + "/" + name)` moves it
@@ -325,9 +326,13 @@ def freeNum : Nat → Nat → List Str → Nat
 /-- `objectname.lstrip(u"/")` -/
 def lstripSlash (s : Str) : Str := s.dropWhile (· == 47)
 
+/-- `[f[len(self.folder)+1:] for f in self._foldersBelow()]`: the folder, relative to the holder stored in `fo`, of every
+    object below the holder at any depth (`_foldersBelow` walks `childobjects` in the order of `objectsK`) -/
+def usedBelow (fo : Str) (kids : List Doc) : List Str := (objectsK 0 kids).map (fun q => q.2.folder.drop (fo.length + 1))
+
 /-- the name `addObject` uses: `none` = ValueError -/
 def objectName (fo : Str) (kids : List Doc) (name : Option Str) : Option Str :=
-  let used := kids.map (fun c => c.folder.drop (fo.length + 1))
+  let used := usedBelow fo kids
   let n := match name with
     | none => sObjectSp ++ dec (freeNum (used.length + 1) (kids.length + 1) used)
     | some x => lstripSlash x
